@@ -14,7 +14,7 @@ Record sim := mkSim {
   s_n : nat;
   s_t : nat;
   s_dealer : nat;
-  s_honest : list nat;
+  s_honest : list nat;       (* the simulated honest participants, plus scripted ones whose script is exactly an honest run *)
   s_must_disq : list nat;    (* generator: dealers whose scripted behaviour the property says must be disqualified *)
   s_must_fail : bool;        (* generator (plain VSS): End must not return keys *)
   s_must_keys : bool;        (* generator: every participant is honest and on time: End must return keys *)
